@@ -6,7 +6,7 @@
 use crate::ast::*;
 use crate::fw::*;
 use crate::model::{MFrame, Model};
-use crate::q::Universe;
+use crate::q::{universes_for, Universe};
 use crate::subj::{cur, Fr, Subj};
 use serde_json::{json, Value};
 
@@ -116,6 +116,16 @@ pub struct ListSpace {
     pub wide: bool,
 }
 const LIST_CHUNK: usize = 64;
+impl ListSpace {
+    /// heavy families (files of more than 40 lines) get one file per work item
+    fn chunk(&self) -> usize {
+        if self.files.iter().any(|(l, _)| l.len() > 40) {
+            1
+        } else {
+            LIST_CHUNK
+        }
+    }
+}
 impl Space for ListSpace {
     fn name(&self) -> String {
         self.name.clone()
@@ -124,10 +134,11 @@ impl Space for ListSpace {
         json!({"scope": self.name, "kind": "explicit family", "files": self.files.len(), "definition": self.note})
     }
     fn n_items(&self) -> usize {
-        (self.files.len() + LIST_CHUNK - 1) / LIST_CHUNK
+        (self.files.len() + self.chunk() - 1) / self.chunk()
     }
     fn run_item(&self, item: usize, budget: &Budget, f: &mut dyn FnMut(&[Line], Term)) {
-        for (l, t) in self.files.iter().skip(item * LIST_CHUNK).take(LIST_CHUNK) {
+        let c = self.chunk();
+        for (l, t) in self.files.iter().skip(item * c).take(c) {
             if budget.exceeded() {
                 return;
             }
@@ -625,8 +636,8 @@ fn mf_json(f: &[MFrame<'_>]) -> Value {
 pub fn visit_model(prop: Prop, lines: &[Line], term: Term, wide: bool, ctx: &mut Ctx, acc: &mut Acc) {
     print_file_into(lines, term, &mut ctx.bytes);
     let bytes = std::mem::take(&mut ctx.bytes);
-    let model = Model::fold(lines);
-    let uni = Universe::from_ast(lines, wide);
+    let model = if lines.len() > 40 { Model::fold_indexed(lines) } else { Model::fold(lines) };
+    let unis = universes_for(lines, wide);
     acc.states += 1;
     let size = bytes.len();
     let case = |q: Value, exp: Value, got: Value| -> Value {
@@ -641,11 +652,13 @@ pub fn visit_model(prop: Prop, lines: &[Line], term: Term, wide: bool, ctx: &mut
     let r = guarded(|| {
         cur::with_subjects(&bytes, &mut ctx.abuf, |mapper, mapper_p, cache, _cbytes| {
             let subjects: [&dyn Subj; 3] = [mapper, mapper_p, cache];
-            match prop {
-                Prop::C01 => oracle_c01(&model, &uni, &subjects, acc, size, &case),
-                Prop::C03 => oracle_c03(&model, &uni, &subjects, acc, size, &case),
-                Prop::C04 => oracle_c04(&model, &uni, &subjects, acc, size, &case),
-                Prop::C02 => unreachable!(),
+            for uni in &unis {
+                match prop {
+                    Prop::C01 => oracle_c01(&model, uni, &subjects, acc, size, &case),
+                    Prop::C03 => oracle_c03(&model, uni, &subjects, acc, size, &case),
+                    Prop::C04 => oracle_c04(&model, uni, &subjects, acc, size, &case),
+                    Prop::C02 => unreachable!(),
+                }
             }
         })
     });
